@@ -134,7 +134,7 @@ CHECKS = {
         "technique": "explicit-state BFS over call sequences of the "
                      "memoised functions (cache capacity 3) vs. the "
                      "undecorated functions",
-        "text": "All call sequences (depth 4-6 quick / 5-7 thorough) over a "
+        "text": "All call sequences (depth 3-5 quick / 4-6 thorough; the reachable cache states saturate at depth 4) over a "
                 "pool of adversarially similar arguments (same bytes with "
                 "other dtype, byte stream split differently between "
                 "arguments, keyword vs positional, strided views, (1,0) vs "
